@@ -190,6 +190,7 @@ def colouring(ctx):
     from .. import misc_guards
 
     misc_guards.colour_sentinel(ctx)
+    thread_count_reads(ctx)
     misc_guards.inverse_dof_map(ctx)  # the colouring reads a dof's elements from global2local
     m = ctx.repo.mod(SP)
     r = ctx.rule("PAR-COLOUR", "colour map: an element's colour differs from every element sharing one of its global dofs; elements are grouped by equal colour", 3)
@@ -208,6 +209,37 @@ def colouring(ctx):
     bad2 = ast.parse("def f(m, mult):\n    g = [[] for _ in range(1 + _np.max(m))]\n    for e in range(len(m)):\n        for l, d in enumerate(m[e]):\n            g[d].append((l, e))\n    return g").body[0]
     r.must_fire(_colour_map_shape(bad1)[0] is False, "neighbours from the first local dof only")
     r.must_fire(_invert_shape(bad2)[0] is False, "global2local entries as (local index, element)")
+
+
+THREAD_READS = ("get_num_threads", "get_thread_id", "NUMBA_NUM_THREADS", "cpu_count", "sched_getaffinity", "active_count", "_get_thread_id", "get_parallel_chunksize")
+
+
+def thread_count_reads(ctx):
+    """No function of the package lets the number (or identity) of worker threads influence what it computes: the
+    result of an assembly must not depend on it, and a value derived from it that is cached outlives a later change of
+    the setting.  Reads that only feed a log / print call are not counted."""
+    r = ctx.rule("PAR-THREAD-READ", "no function of the package reads the worker-thread count or a thread id into a test, a bound, an index or a stored value", 1)
+    n, bad = 0, 0
+    for rel in ctx.repo.py_files("bempp_cl"):
+        m = ctx.repo.mod(rel)
+        for qn, fn in m.functions.items():
+            if "<" in qn:
+                continue
+            n += 1
+            logged = {id(x) for c in ast.walk(fn) if isinstance(c, ast.Call) and unparse(c.func).split(".")[-1] in ("log", "print", "debug", "info", "warning") for x in ast.walk(c)}
+            for x in ast.walk(fn):
+                nm = x.attr if isinstance(x, ast.Attribute) else x.id if isinstance(x, ast.Name) else None
+                if nm in THREAD_READS and id(x) not in logged:
+                    bad += 1
+                    r.fail("%s::%s" % (rel.rsplit("/", 1)[-1], qn), rel, qn, x.lineno, "read of %s in %s" % (nm, qn),
+                           "%s reads `%s`: what it computes (or caches) depends on the number of worker threads at that moment, the results of later assemblies on the history of that setting" % (qn, unparse(x)[:50]))
+                    break
+    if n < 400:
+        raise AnalysisError("thread-count lint: only %d functions scanned" % n)
+    if not bad:
+        r.ok("%d functions, no read of the thread count" % n)
+    pos = ast.parse("def f(self):\n    if _numba.get_num_threads() == 1:\n        self._indexptr = self._indexptr[[0, -1]]\n").body[0]
+    r.must_fire(any((isinstance(x, ast.Attribute) and x.attr in THREAD_READS) for x in ast.walk(pos)), "colour classes merged when one thread is active")
 
 
 def _recognised(res, what):
@@ -306,6 +338,13 @@ def _sort_by_colour_shape(fs):
     ptr = [s for s in body if s.op == "=" and isinstance(s.tnode, ast.Subscript) and unparse(s.tnode.value) == IP]
     if len(ptr) != 1 or ptr[0].target != ex("IP[I + 1]", ptr[0].node.lineno) or ptr[0].value != CNT or ptr[0].node.lineno < ln:
         return False, "indexptr[colour + 1] is not the counter after the colour's elements were added"
+    # what is published is what the colour loop filled: neither array is rebound, sliced or stored into between the loop
+    # and the publication (a collapsed index pointer merges colour classes: elements that share a dof run concurrently)
+    later = [st for st in ast.walk(fs) if isinstance(st, (ast.Assign, ast.AugAssign)) and st.lineno > lp.end_lineno
+             and any(isinstance(b, ast.Name) and b.id in (SI, IP) and isinstance(b.ctx, ast.Store) or (isinstance(t, ast.Subscript) and isinstance(t.value, ast.Name) and t.value.id in (SI, IP))
+                     for t in (st.targets if isinstance(st, ast.Assign) else [st.target]) for b in ([t] if isinstance(t, ast.Name) else [t]))]
+    if later:
+        return False, "`%s` changes the sorted indices / index pointer after the colour loop has filled them: the published classes are no longer one per colour" % unparse(later[0])[:70]
     init = [st for st in fs.body if isinstance(st, ast.Assign) and unparse(st.targets[0]) == CNT and isinstance(st.value, ast.Constant) and st.value.value == 0 and st.lineno < lp.lineno]
     ipdef = defs.alloc(IP, lp.lineno)
     if not init:
